@@ -33,7 +33,10 @@ def models():
         out.append(s)
     s = copy.deepcopy(fam.ode_core()[0])
     s.objective = [integral(X(0) * U(0) + t), T * 2 + at_tf(X(1))]
-    s.cons = [Con('<=', nxt(X(0)) - X(0), 1), Con('==', at_t0(X(0)), Pg('a')), Con('<=', X(1), 3 + t, grid='integrator')]
+    s.cons = [Con('<=', nxt(X(0)) - X(0), 1), Con('==', at_t0(X(0)), Pg('a')), Con('<=', X(1), 3 + t, grid='integrator'),
+              # declaration options of a constraint travel with it
+              Con('<=', X(1), 9, include_first=False), Con('>=', X(0), -9, include_last=False, grid='integrator'),
+              Con('<=<=', -8, 8, mid=U(0) * X(0), include_first=False, include_last=False)]
     s.initial = [(X(0), t * 2), (U(0), Fr(1, 3))]
     out.append(s)
     return out
